@@ -26,10 +26,10 @@ RULE = (
     "into an occupied slot or registers >= 2 variables at once"
 )
 SPACE = {
-    "quick": "pool: axis set {X} at 3 positions x 2 variables, {X,Y} at 2 positions x 2 variables; actions: every list of 1-3 variables at pairwise different positions in every order x overwrite T/F (+ constructor metrics= as first action); BFS to depth 3 (all states expanded), key spellings str/tuple/list rotating",
-    "thorough": "{X,Y} at 3 positions; BFS to depth 4",
+    "quick": "pool: axis set {X} at 2 positions x 2 variables, {Y} at 1 position x 2 variables (so {X,Y} can be answered by a product), {X,Y} at 2 positions x 2 variables; the registry is read through get_metric on the same object before and after every call; actions: every list of 1-3 variables at pairwise different positions in every order x overwrite T/F (+ constructor metrics= as first action); BFS to depth 4, key spellings str/tuple/list rotating",
+    "thorough": "{X} at 3 positions, {X,Y} at 3 positions; BFS to depth 3 (the larger pool has 4563 states; every state reached within 2 calls is expanded)",
 }
-BOUNDS = {"quick": {"depth": 3}, "thorough": {"depth": 4}}
+BOUNDS = {"quick": {"depth": 4}, "thorough": {"depth": 3}}
 ASSUMPTIONS = [
     "states are identified through get_metric only; two variables per slot carry distinct prime labels so the occupant is identified exactly",
     "a batch containing a refused element may be applied atomically or as a prefix (both accepted); it must raise and leave the refused slot unchanged",
@@ -44,9 +44,12 @@ MG = M.MGrid(LAY, NS)
 def pool(tier):
     pit = iter(M.primes(400))
     vs = []
-    for p in LAY["X"]:
+    for p in (LAY["X"] if tier == "thorough" else LAY["X"][:2]):
         for k in (1, 2):
             vs.append(MG.make_var(f"dx_{S.SHORT[p]}{k}", ("X",), {"X": p}, pit))
+    # a block for Y alone, so that {X,Y} requests can be answered by a product of blocks
+    for k in (1, 2):
+        vs.append(MG.make_var(f"dy_c{k}", ("Y",), {"Y": "center"}, pit))
     pairs = [("center", "center"), ("left", "left")] + ([("left", "center")] if tier == "thorough" else [])
     for px, py in pairs:
         for k in (1, 2):
@@ -64,7 +67,7 @@ def ctx(tier):
         slots = sorted({(frozenset(v.axes), v.dims) for v in vs}, key=lambda s: (sorted(s[0]), s[1]))
         ds = MG.dataset(vs)
         acts = []
-        for axes in (("X",), ("X", "Y")):
+        for axes in (("X",), ("Y",), ("X", "Y")):
             mine = [v for v in vs if v.axes == axes]
             myslots = sorted({v.dims for v in mine})
             for k in (1, 2, 3):
@@ -73,7 +76,7 @@ def ctx(tier):
                         for perm in itertools.permutations(choice):
                             for ow in (False, True):
                                 acts.append((axes, tuple(v.name for v in perm), ow))
-        spell = {("X",): ["X", ("X",), ["X"]], ("X", "Y"): [("X", "Y"), ["Y", "X"], ("Y", "X")]}
+        spell = {("X",): ["X", ("X",), ["X"]], ("Y",): ["Y", ["Y"], ("Y",)], ("X", "Y"): [("X", "Y"), ["Y", "X"], ("Y", "X")]}
         actions = []
         for i, (axes, names, ow) in enumerate(acts):
             key = spell[axes][i % 3]
@@ -146,8 +149,8 @@ def read_state(c, g):
                 if frozenset(v.axes) == axes and v.dims == dims and set(got.dims) == set(dims):
                     if np.array_equal(got.transpose(*dims).values, v.values):
                         name = v.name
-            if name is None:
-                name = "?"
+            # no variable of this slot: the answer is a product of blocks registered at this
+            # position (slot empty); its admissibility is judged below against C10's oracle
         occ[si] = name
         try:
             vals = np.asarray(got.transpose(*dims).values if set(got.dims) == set(dims) else got.values, dtype=float)
@@ -212,6 +215,13 @@ def expected(c, occ, act):
 def check_transition(c, rec, history, act, occ0, tier):
     case = dict(tier=tier, history=history, action=act)
     g = rebuild(c, history)
+    if not act.get("ctor"):
+        # the registry is also *read* on this very object before the call: what get_metric
+        # answered earlier must not influence what it answers after the registration
+        occ_pre, _, _ = read_state(c, g)
+        if occ_pre != occ0:
+            rec.violation("registry", "state-differs-between-two-rebuilds", case, names(c, occ0), names(c, occ_pre))
+            return None
     g, err = apply_action(c, g, act)
     occ2, ans2, info2 = read_state(c, g)
     rec.transitions += 1
